@@ -1,6 +1,7 @@
 CONSTANTS R = 2
   N = 1
   Find = FALSE
+  Lock = TRUE
   WithUpdate = FALSE
   Relist = TRUE
   MaxRelist = 3
